@@ -31,6 +31,31 @@ def generate(rng: random.Random, tier: str):
                 yield S.apply_case(fam, doc, st, True, "joins")[0]
 
 
+    # replace-around steps no high-level operation records but a peer may send: the insertion point lies strictly
+    # INSIDE a text node of the slice (closed text slice around an inline gap; an open textblock slice with the
+    # insertion point in its text)
+    from prosemirror.model import Fragment, Slice
+    from prosemirror.transform import ReplaceAroundStep
+    for fam in ("basic", "list"):
+        g, docs = S.family_docs(rng, fam, 5 if quick else 50)
+        sc = gen.family(fam)
+        for doc in docs:
+            tbs = []
+            doc.descendants(lambda nd, pos, *_: tbs.append((pos, nd)) if nd.is_textblock and nd.content.size >= 1 else None)
+            for pos, nd in tbs[: (3 if quick else 8)]:
+                start = pos + 1
+                ps = [p for p in S.boundary_positions(doc) if start <= p <= start + nd.content.size]
+                a, c = sorted((rng.choice(ps), rng.choice(ps)))
+                text = rng.choice(["XY", "XYZ", "\U0001F600X"])
+                ins = rng.randint(1, len(text) - 1) if text[0] != "\U0001F600" else 2
+                yield S.apply_case(fam, doc, ReplaceAroundStep(a, c, a, c, Slice(Fragment.from_(sc.text(text)), 0, 0), ins),
+                                   True, "insert-inside-text")[0]
+                # the whole textblock as the gap's parent: slice <p("XY")>(1,1), insertion point inside its text
+                ga, gc = start, start + nd.content.size
+                sl = Slice(Fragment.from_(sc.nodes["paragraph"].create(None, [sc.text(text)])), 1, 1)
+                yield S.apply_case(fam, doc, ReplaceAroundStep(ga, gc, ga, gc, sl, ins), True, "insert-inside-text")[0]
+
+
 def rebuild(desc):
     return S.rebuild_history(desc) if desc.get("case") == "history" else S.rebuild_apply(desc)
 
